@@ -107,7 +107,7 @@ def release(F, R, d):
             later = [a for a in await_points(b) if a['poll'] in b.reachable_after(bi)]
             R.ob('C11.release', '%s|%s|remove|nothing-awaited-after-the-release' % (d.name, top(b)), not later,
                  'after inflight.remove(id) the exchange still awaits another service (%s): the id is free for reuse while its acknowledgement does not exist yet' % (later[0]['callee'] if later else ''), b.loc(bi))
-    R.floor('C11.release', '%s remove sites' % d.name, n_rm, {'v3-server': 4, 'v3-client': 3, 'v5-server': 2, 'v5-client': 2}[d.name])
+    R.floor('C11.release', '%s remove sites' % d.name, n_rm, {'v3-server': 2, 'v3-client': 1, 'v5-server': 1, 'v5-client': 1}[d.name])
     # final acks constructed locally are paired with a remove; QoS2 PUBREC is not
     for b in helpers:
         rms = {bi for bi, t, ap in d.inflight_calls(b, 'remove')}
